@@ -360,6 +360,24 @@ func runSession(s spec) *transcript {
 			if compressedMode(s) {
 				u.Negotiate = negotiator(t)
 			}
+			if s.id%3 != 0 {
+				// the application's callbacks take part in the handshake (and take their time:
+				// an auth backend, say), each seeing this session's request only
+				u.OnRequest = func(uri []byte) error { t.add("S on-request %s", uri); runtime.Gosched(); return nil }
+				u.OnHost = func(h []byte) error { t.add("S on-host %s", h); return nil }
+				u.OnHeader = func(k, v []byte) error {
+					if strings.HasPrefix(string(k), "X-Session") {
+						t.add("S on-header %s=%s", k, v)
+					}
+					return nil
+				}
+				u.OnBeforeUpgrade = func() (ws.HandshakeHeader, error) {
+					for i := 0; i < 1+s.id%4; i++ {
+						runtime.Gosched()
+					}
+					return ws.HandshakeHeaderString(fmt.Sprintf("X-Session-Reply: %d\r\n", s.id)), nil
+				}
+			}
 			var conn net.Conn = sc
 			if s.wss {
 				tc := tls.Server(sc, &tls.Config{Certificates: []tls.Certificate{hostCerts[s.id%tlsHosts]}})
@@ -376,6 +394,15 @@ func runSession(s spec) *transcript {
 		}()
 	}
 	d := ws.Dialer{Protocols: []string{"other.v9", protoOf(s)}, NetDial: func(ctx context.Context, n, a string) (net.Conn, error) { return cc, nil }}
+	if s.id%3 != 0 {
+		d.Header = ws.HandshakeHeaderString(fmt.Sprintf("X-Session-Id: %d\r\n", s.id))
+		d.OnHeader = func(k, v []byte) error {
+			if strings.HasPrefix(string(k), "X-Session") {
+				t.add("C on-header %s=%s", k, v)
+			}
+			return nil
+		}
+	}
 	if compressedMode(s) {
 		d.Extensions = s.shared
 		if d.Extensions == nil {
